@@ -39,14 +39,14 @@ SPEC = dict(
     ],
     units=[
         pbt("c19_dns", "harness/c19_dns.cpp", dict(
-            construct=P(2000, 40000, 4, 16),
+            construct=P(2000, 30000, 4, 16),
             query=P(2000, 20000, 2, 8),
             malformed=P(3000, 30000, 3, 12),
             truncate=P(400, 5000, 2, 12),
-            mutate=P(2500, 40000, 3, 12),
+            mutate=P(2500, 30000, 3, 12),
             cache=P(1200, 15000, 2, 12),
         )),
         fuzz("fuzz_dns", "harness/fuzz_dns.cpp", dict(runs=250000, procs=4, max_len=600, max_seconds=25, timeout=8),
-             dict(runs=25000000, procs=16, max_len=4096, max_seconds=480, timeout=8), corpus="corpus/C19"),
+             dict(runs=25000000, procs=16, max_len=4096, max_seconds=360, timeout=8), corpus="corpus/C19"),
     ],
 )
